@@ -141,6 +141,62 @@ def sym_aggregators(vc):
     #  exercised by the bounded differential only -- see nat_join / nat_aggregators_fixed)
 
 
+def replay_aggregators(h, cex, obligation):
+    """the solver's counterexample of a failed fold-step obligation: an accumulated state and a new value -- run the REAL
+    AGGREGATORS[agg].func on them and compare with the documented fold"""
+    import re as _re
+    from contracts import replayers as R
+    from dataflows.processors.join import AGGREGATORS
+    m = _re.search(r'fold-step\[(\w+),(empty|some)\]', obligation)
+    if not m:
+        return 'not-concretisable'
+    agg, which = m.groups()
+    new = R.scalar(cex, 'new')
+    if which == 'empty':
+        curr = None
+    elif agg == 'count':
+        curr = R.scalar(cex, 'currcount')
+    elif agg == 'avg':
+        curr = (R.scalar(cex, 'n'), R.scalar(cex, 'total'))
+    elif agg in ('sum', 'max', 'min', 'first', 'last', 'any'):
+        curr = R.scalar(cex, 'curr')
+    else:
+        return 'not-concretisable'       # list / set states are abstract sequences in the model
+    sp = h.spec(SPEC)
+    want = h.run(lambda: sp['fold_step'](agg, curr, new))
+    got = h.run(lambda: AGGREGATORS[agg].func(curr, new))
+    if want[0] != 'ok':
+        return 'not-concretisable'       # the model's values do not support the operation (abstract objects, mixed types)
+    h.check(got[0] == 'ok' and got[1] == want[1] and type(got[1]) is type(want[1]), P + 'join.py::AGGREGATORS',
+            dict(aggregate=agg, state=curr, value=new), want[1], got[:2])
+
+
+def replay_keycalc(h, cex, obligation):
+    """the solver's counterexample of a failed key-rendering obligation: a row and a row number for KeyCalc(['a','b']) / '{#}-{a}'"""
+    from contracts import replayers as R
+    from dataflows.processors.join import KeyCalc
+    if 'list-spec-becomes' in obligation or 'format-spec-kept' in obligation:
+        # a ground obligation (no symbolic input): the real constructor on the literal of the contract
+        a, b = KeyCalc(['a', 'b']), KeyCalc('{#}-{a}')
+        h.check((a.key_spec, a.key_list, b.key_spec, b.key_list) == ('{a}:{b}', ['a', 'b'], '{#}-{a}', ['#', 'a']),
+                P + 'join.py::KeyCalc.__init__', "KeyCalc(['a', 'b']), KeyCalc('{#}-{a}')", ('{a}:{b}', ['a', 'b'], '{#}-{a}', ['#', 'a']),
+                (a.key_spec, a.key_list, b.key_spec, b.key_list))
+        return
+    rows = R.rows(cex, 'row')
+    if not rows:
+        return 'not-concretisable'
+    row, n = rows[0], R.scalar(cex, 'rownum', 0)
+    if any(isinstance(v, R.AbstractObject) for v in row.values()):
+        return 'not-concretisable'
+    if 'hash-renders' in obligation:
+        kc, want = KeyCalc('{#}-{a}'), (lambda: '%s-%s' % (n, row['a']))
+    else:
+        kc, want = KeyCalc(['a', 'b']), (lambda: '%s:%s' % (row['a'], row['b']))
+    w, g = h.run(want), h.run(lambda: kc(row, n))
+    ok = (w[0] == g[0] == 'ok' and w[1] == g[1]) or (w[0] == g[0] == 'exc' and w[1] == g[1] == 'KeyError')
+    h.check(ok, P + 'join.py::KeyCalc.__call__', dict(row=row, row_number=n), w[:2], g[:2])
+
+
 def sym_keycalc(vc):
     import z3
     from pyvc.api import real_function, check, cover, sym_row, sym_int, PyList, term, StrS, SpecModule, Cell
@@ -300,16 +356,18 @@ def sym_process_target(vc):
     from pyvc.symex import PyExc, Ev
     from pyvc import lib
     fk = vc.under_contract(P + 'join.py', ['join_aux', 'process_target'])
-    vc.under_contract(P + 'join.py', ['join_aux', 'create_extra_by_key'])
-    for mode in ('inner', 'half-outer', 'full-outer'):
+    vc.under_contract_if_present(P + 'join.py', ['join_aux', 'create_extra_by_key'])
+    for mode in ('inner', 'half-outer', 'full-outer', 'inner/no-fields', 'half-outer/no-fields'):
         for matched in (True, False):
             def thunk(it, mode=mode, matched=matched):
                 # the key field is named differently on the two sides: rows emitted into the target resource use the TARGET's name
-                func, usage, db = mk_join(it, mode=mode, agg='first', key_names=('sk', 'tk'))
+                nofields = mode.endswith('/no-fields')       # join used as a filter: nothing is copied, index entries are empty
+                mode = mode.split('/')[0]
+                func, usage, db = mk_join(it, mode=mode, agg='first', key_names=('sk', 'tk'), fields=PyDict({}) if nofields else None)
                 process_target = func.env.lookup('process_target')
                 raw_key = it.fresh('raw_source_key', Cell)
                 state = it.fresh('stored_state', Cell)
-                stored = PyDict({'x': SV(state)})
+                stored = PyDict({'x': SV(state)} if not nofields else {})
                 if mode == 'full-outer':
                     # what the indexer's contract establishes for every entry in this mode (full-outer-stores-the-raw-key-values)
                     stored.d['__key__'] = lib.PyList([SV(raw_key)])
@@ -317,13 +375,15 @@ def sym_process_target(vc):
                 def get(it_, o, a, k):
                     it_.emit(Ev('Call', target=o, method='get', args=(a[0],), kwargs={}, result=None, objs=tuple(a)))
                     if not matched:
+                        if 'default' in k:
+                            return k['default']       # KVFile.get(key, default=..) answers with the default instead of raising (T6)
                         raise PyExc(lib.ExcV('KeyError', (a[0],)))
                     return PyDict(dict(stored.d))
                 db.attrs['call:get'] = get
                 usage.attrs['call:items'] = lambda it_, o, a, k: Stream('usage.items', lambda it2: (SV(it2.fresh('ukey', StrS)),
                                                                                                    SV(it2.fresh('uflag', z3.BoolSort()))))
                 r = mk_resource(it, 'target')
-                tag = '[%s,%s]' % (mode, 'matched' if matched else 'unmatched')
+                tag = '[%s%s,%s]' % (mode, '/no-fields' if nofields else '', 'matched' if matched else 'unmatched')
 
                 def at_start(it, env, elem):
                     n, row = elem
@@ -333,6 +393,15 @@ def sym_process_target(vc):
                     n, row, snap = cap
                     ys = yields_of(events)
                     sets = calls(events, method='set')
+                    if nofields:
+                        # a join that copies nothing is a (semi-)join filter: a matched row passes as it is -- an EMPTY index entry
+                        # is still a match --, an unmatched one is dropped in inner mode and passes in outer mode
+                        keep = matched or mode != 'inner'
+                        check(it, 'no-fields-join-keeps-exactly-the-rows-the-mode-keeps' + tag, len(ys) == (1 if keep else 0))
+                        if len(ys) == 1:
+                            check(it, 'no-fields-join-leaves-the-row-as-it-is' + tag, same_row(ys[0].value, snap))
+                        cover(it, 'iter-reachable' + tag)
+                        return
                     if matched:
                         check(it, 'matched-row-emitted-once' + tag, len(ys) == 1)
                         check(it, 'matched-key-marked-used' + tag, len(sets) == 1 and sets[0].objs[1] is True)
@@ -669,6 +738,23 @@ def nat_join(h):
 
 
 
+def nat_join_filter(h):
+    """bounded: join that copies no field (fields={}) is a filter on the target: inner keeps exactly the target rows whose key occurs
+    in the source, half-outer keeps all target rows, untouched, in order"""
+    from dataflows import Flow, join
+    for _ in range(h.n(20, 200)):
+        src = [{'k': h.rng.randint(0, 4), 'v': i} for i in range(h.rng.randint(0, 5))]
+        tgt = [{'k': h.rng.randint(0, 6), 'w': 'w%d' % i} for i in range(h.rng.randint(1, 6))]
+        keys = {r['k'] for r in src}
+        for mode in ('inner', 'half-outer'):
+            want = [r for r in tgt if r['k'] in keys] if mode == 'inner' else tgt
+            got = h.run(lambda: Flow([dict(r) for r in src] or [{'k': -1, 'v': 0}], [dict(r) for r in tgt],
+                                     join('res_1', ['k'], 'res_2', ['k'], fields={}, mode=mode)).results(on_error=None)[0])
+            h.check(got[0] == 'ok' and len(got[1]) == 1 and got[1][0] == want, P + 'join.py::join_aux.process_target', (mode, src, tgt), want,
+                    got[1] if got[0] == 'ok' else got[:2])
+
+
+
 # ------------------------------------------------------------------------------------------------ field mapping helpers (bounded)
 
 FIELDS_SPEC = '''
@@ -908,11 +994,12 @@ def sym_field_helpers(vc):
 
 
 ITEMS = [
-    Item('aggregators', sym_aggregators, [('differential', nat_join), ('fixed-groups', nat_aggregators_fixed)], P + 'join.py::AGGREGATORS'),
+    Item('aggregators', sym_aggregators, [('differential', nat_join), ('fixed-groups', nat_aggregators_fixed)], P + 'join.py::AGGREGATORS',
+         replay=replay_aggregators),
     Item('field-helpers', sym_field_helpers, [], P + 'join.py::fix_fields'),
-    Item('KeyCalc', sym_keycalc, [], P + 'join.py::KeyCalc.__call__'),
+    Item('KeyCalc', sym_keycalc, [], P + 'join.py::KeyCalc.__call__', replay=replay_keycalc),
     Item('indexer', sym_indexer, [], P + 'join.py::join_aux.indexer'),
-    Item('process_target', sym_process_target, [], P + 'join.py::join_aux.process_target'),
+    Item('process_target', sym_process_target, [('no-fields', nat_join_filter)], P + 'join.py::join_aux.process_target'),
     Item('new_resource_iterator', sym_new_resource_iterator, [], P + 'join.py::join_aux.new_resource_iterator'),
     Item('join.field-order', sym_join_field_order, [], P + 'join.py::join_aux.process_datapackage'),
     Item('join.func', sym_join_func, [], P + 'join.py::join_aux.func'),
